@@ -1,5 +1,5 @@
 SPECIFICATION TraceSpec
 CONSTANTS
-  Fix = {"tail", "suffix", "epoch"}
+  GroupIds = {"g1"}
 POSTCONDITION Done
 CHECK_DEADLOCK FALSE
